@@ -403,6 +403,35 @@ def count_boundary_corpus(ctx):
         one_case(ctx, pred, ref, E.mk_cfg("SEMANTIC", ["IOU", "DSC"], matcher=E.naive("IOU", (1, 2))), f"corpus.count-boundary-{n}", fixed=fixed)
 
 
+def grouped_layout_corpus(ctx):
+    """class groups and memory layout: a non-cubic 3-D pair evaluated with two class groups, stored C-ordered, Fortran-ordered, as a transposed
+    view and with negative strides — the same logical arrays, the same results"""
+    ref = np.zeros((4, 9, 6), np.uint8)
+    ref[0:2, 0:3, 0:2], ref[2:4, 5:8, 3:6], ref[0:2, 6:9, 0:3] = 1, 2, 3
+    ref[3, 0:2, 0:2] = 1
+    pred = np.roll(ref, 1, axis=1)
+    groups = [{"name": "one", "labels": [1, 2], "merge": False, "single": False}, {"name": "two", "labels": [3], "merge": True, "single": False}]
+    for it in ("SEMANTIC", "UNMATCHED"):
+        cfg = E.mk_cfg(it, ["IOU", "DSC"], matcher=E.naive("IOU", (1, 4)))
+        base = E.run_impl(cfg, pred, ref, groups=groups)
+        for lay in ("F", "T", "neg"):
+            p2, r2 = layouts(None, pred, lay)[0], layouts(None, ref, lay)[0]
+            inp = {"shape": list(ref.shape), "pred": gen.arr_json(pred), "ref": gen.arr_json(ref), "cfg": cfg, "groups": groups, "grouped_layout": lay}
+            ctx.case(inp, True)
+            ctx.count("class_groups_and_memory_layout")
+            got = E.run_impl(cfg, p2, r2, groups=groups)
+            if isinstance(base, str) or isinstance(got, str):
+                if base != got:
+                    ctx.violation(f"with class groups, the pair stored with layout {lay} gives {got if isinstance(got, str) else 'a result'} instead of {base if isinstance(base, str) else 'a result'}",
+                                  inp, key={"kind": "not-invariant"})
+                continue
+            for g in base:
+                d = summ_equal(base[g], got[g], cfg["eval_metrics"])
+                if d:
+                    ctx.violation(f"with class groups, group {g!r}: result changes with the memory layout ({lay}): {d}", inp, key={"kind": "not-invariant"})
+                    break
+
+
 def special_pair(rng):
     """(a) a volume with an axis of length one whose blobs touch only across corners / edges; (b) a volume without
     any background voxel carrying two or three class values"""
@@ -450,6 +479,7 @@ def run(ctx):
     singleton_axis_corpus(ctx)
     many_blobs_corpus(ctx)
     count_boundary_corpus(ctx)
+    grouped_layout_corpus(ctx)
     huge_padding(ctx, ctx.scale(3, 12))
     big_canvas(ctx, ctx.scale(2, 8))
     big_instance(ctx, ctx.scale(1, 3))
@@ -462,6 +492,9 @@ def search(ctx):
 
 def replay(ctx, rec):
     i = rec["input"]
+    if i.get("grouped_layout"):
+        grouped_layout_corpus(ctx)
+        return
     if "recipe" in i:
         P, R = scale.build(i["recipe"])
         if i["recipe"]["kind"] == "embed":
